@@ -101,11 +101,16 @@ std::string opname(int op) { char b[48]; if (op < 3) snprintf(b, 48, "setAnchor(
 
 void sequences(vf::Ctx& c, int depth, int init, int firstOp) {
   static Alphabet al;
-  uint64_t total = 1; for (int i = 1; i < depth; ++i) total *= NOPS;
+  // depth < 0: long run - a fixed script of 30 operations, and every variant with ONE position replaced by any operation (deviation bound 1)
+  const bool longRun = depth < 0; if (longRun) depth = 30;
+  const int pattern[15] = {0, 4, 8, 12, 13, 16, 17, 1, 10, 14, 3, 6, 15, 19, 7};
+  uint64_t total = 1; if (longRun) total = (uint64_t)depth * NOPS + 1; else for (int i = 1; i < depth; ++i) total *= NOPS;
   std::set<uint64_t> statesShallow, statesAll;
-  std::vector<int> seq(depth); seq[0] = firstOp;
+  std::vector<int> seq(depth), base(depth); if (!longRun) seq[0] = firstOp;
+  for (int i = 0; i < depth; ++i) base[i] = pattern[i % 15];
   for (uint64_t k = 0; k < total; ++k) {
-    uint64_t r = k; for (int i = 1; i < depth; ++i) { seq[i] = r % NOPS; r /= NOPS; }
+    if (longRun) { seq = base; if (k) seq[(k - 1) / NOPS] = (int)((k - 1) % NOPS); }
+    else { uint64_t r = k; for (int i = 1; i < depth; ++i) { seq[i] = r % NOPS; r /= NOPS; } }
     std::unique_ptr<ENUConverter> cur(init ? new ENUConverter(al.A[init - 1]) : new ENUConverter()), other(new ENUConverter(al.A[1]));
     other->toENU(al.G[2]);   // the other converter has a past of its own
 #define conv (*cur)
@@ -175,19 +180,19 @@ void sequences(vf::Ctx& c, int depth, int init, int firstOp) {
 
 }  // namespace
 
-uint64_t vf_ncases(const std::string& tier) { return anchors().size() + 4 * NOPS; }
+uint64_t vf_ncases(const std::string& tier) { return anchors().size() + 4 * NOPS + 4; }
 
 void vf_run(uint64_t idx, const std::string& tier, vf::Ctx& c) {
   size_t na = anchors().size();
   if (idx < na) lattice(c, idx);
-  else { int k = (int)(idx - na); sequences(c, tier == "thorough" ? 5 : 4, k / NOPS, k % NOPS); }
+  else { int k = (int)(idx - na); if (k >= 4 * NOPS) sequences(c, -1, k - 4 * NOPS, 0); else sequences(c, tier == "thorough" ? 5 : 4, k / NOPS, k % NOPS); }
 }
 
 std::string vf_describe(const std::string& tier) {
   vf::JO o;
   o.u("anchors", anchors().size()).str("anchor_lattice", "lat {-85,-60,-30,-1e-6,0,33.3,45,60,85} deg x lon {-180,-179.999,-90,0,2.5,90,179.999,180} deg x h {-500,0,300,9000} m");
   o.str("local_points", "{0,+-1,+-100,+-1e4,+-1e5}^2 x {0,+-100,+-1e4} m");
-  o.i("sequence_depth", tier == "thorough" ? 5 : 4).str("sequence_ops", "20 operations (setAnchor x3, reset, toENU geodetic x3 / wgs84 x3 / ecef x3, toECEF x2, toWGS84 x2, getters, assign to another long-lived converter and continue with it, continue with a copy-constructed converter) from 4 initial constructions; const conversions only when the model says anchored");
+  o.i("sequence_depth", tier == "thorough" ? 5 : 4).str("sequence_ops", "20 operations (setAnchor x3, reset, toENU geodetic x3 / wgs84 x3 / ecef x3, toECEF x2, toWGS84 x2, getters, assign to another long-lived converter and continue with it, continue with a copy-constructed converter) from 4 initial constructions; const conversions only when the model says anchored; plus, from each construction, a fixed script of 30 operations and every variant with ONE position replaced by any operation");
   o.str("oracle", "frame = (east,north,up) from the definition within 1e-12; conversions within 1e-6 m of the long-double reference; state after every step equals a fresh converter anchored at the model anchor (bitwise)");
   return o.done();
 }
